@@ -34,6 +34,11 @@ type Exec struct {
 	Epoch      int
 	labelMemo  map[token.Pos]string
 	Returns    int
+	specEq     bool
+	ReplayArgs []TV
+	ReplayLen  []bool
+	ReplayFn   string
+	ReplayPkg  *types.Package
 }
 
 type pureCollector struct {
@@ -137,7 +142,8 @@ func (ex *Exec) emit(st *State, kind, label string, goal *Term, pos token.Pos, p
 	name := ex.TopName + "#" + kind + ":" + label
 	ex.oblSeq[name]++
 	o := &Obligation{Name: name, Kind: kind, Func: ex.TopName, Pos: posString(ex.P.SSA.Fset, pos), Props: props, Inst: ex.oblSeq[name],
-		Q: &Query{Assumes: st.PC.list(), Goal: goal}, Trace: append([]string{}, st.Trace...)}
+		Q: &Query{Assumes: st.PC.list(), Goal: goal, Cheap: kind == "nil"}, Trace: append([]string{}, st.Trace...)}
+	o.ReplayArgs, o.ReplayFn, o.ReplayPkg, o.ReplayLen = ex.ReplayArgs, ex.ReplayFn, ex.ReplayPkg, ex.ReplayLen
 	ex.Obls = append(ex.Obls, o)
 }
 
